@@ -478,6 +478,28 @@ def emit_lean(tab: dict) -> str:
     L.append("  ]")
     L.append("}")
     L.append("")
+    # one boundary-valued instance per concrete class (non-vacuity of the instantiation theorems):
+    # sizes 2^64-1, one-character strings, first enum member
+    L.append("/-- one message per concrete class with sizes 2^64-1 (proved in-domain and round-tripping in Props/C17) -/")
+    L.append("def shmApiWitnesses : List Msg := [")
+    rows = []
+    for m in tab["msgs"]:
+        if m["is_base"]:
+            continue
+        kinds = {f["name"]: f["kind"] for f in m["ser"]}
+        vals = []
+        for i, f in enumerate(m["fields"]):
+            k = kinds.get(f, ("str",))
+            if k[0] == "int":
+                vals.append(f".int {2**64 - 1}")
+            elif k[0] == "enum":
+                vals.append(f".int {tab['enums'][k[3]][0][1]}")
+            else:
+                vals.append(f".str [{107 + i}]")
+        rows.append("  ⟨" + _lean_str(m["cls"]) + ", [" + ", ".join(vals) + "]⟩")
+    L.append(",\n".join(rows))
+    L.append("]")
+    L.append("")
     L.append("end EkwVerif.Gen")
     return "\n".join(L) + "\n"
 
